@@ -32,7 +32,12 @@ func TestMain(m *testing.M) {
 
 // Case is one session brought into State, then ended by Event.
 //
-// State: backedup-s2c-upload (as backedup-s2c, and the client, which does not read, then
+// State: early-credit (as mid; the client then opens stream 3 and widens its window at
+// once, before anything has been relayed toward it on that stream, and the server
+// answers stream 3 afterwards) | burst (300 short complete requests, HEADERS with
+// END_STREAM, sent back to back by the client and answered one by one by the server as
+// they arrive; the state does not wait for the answers beyond half the bound) |
+// backedup-s2c-upload (as backedup-s2c, and the client, which does not read, then
 // uploads a DATA frame: the relay's client-to-server reader wants to return credit for it
 // and waits for the write lock that the stuck server-to-client writer holds - now neither
 // reader is in a position to see anything; only closing and server-close apply) |
@@ -74,7 +79,7 @@ type Case struct {
 var collect = os.Getenv("C10_COLLECT") != ""
 
 var (
-	states   = []string{"dialing", "handshake", "idle-no-alpn", "queued-s2c", "idle", "mid", "blocked-c2s", "blocked-s2c", "backedup-c2s", "backedup-s2c", "backedup-s2c-upload"}
+	states   = []string{"dialing", "handshake", "idle-no-alpn", "queued-s2c", "idle", "mid", "blocked-c2s", "blocked-s2c", "backedup-c2s", "backedup-s2c", "backedup-s2c-upload", "early-credit", "burst"}
 	events   = []string{"bad-preface", "closing-first", "server-close-slow-client", "server-close-slow-client-credit", "server-close-slow-client-credit-close", "client-close", "server-close", "server-reset", "client-write-fail", "client-ack-write-fail", "client-proto-error", "server-proto-error", "closing"}
 	variants = []string{"continuation-without-headers", "bad-padding", "settings-bad-length", "max-frame-size-zero"}
 
@@ -108,6 +113,9 @@ func valid(c Case) bool {
 	}
 	if c.State == "backedup-s2c-upload" {
 		return c.Event == "closing" || c.Event == "server-close"
+	}
+	if c.State == "early-credit" || c.State == "burst" {
+		return c.Event == "client-close" || c.Event == "server-close" || c.Event == "closing"
 	}
 	if (c.State == "handshake") != (c.Event == "bad-preface" || c.Event == "closing-first" || (c.State == "handshake" && (c.Event == "client-close" || c.Event == "closing"))) {
 		return false // before the preface only the client can end the session, and only then can the preface be wrong
@@ -161,7 +169,7 @@ func arrange(c Case, s *h2kit.Session, bound time.Duration) string {
 		sInit = wide
 	case "backedup-s2c", "backedup-s2c-upload":
 		cInit = wide
-	case "mid":
+	case "mid", "early-credit":
 		cl.SetAutoWU(true)
 		sv.SetAutoWU(true)
 	}
@@ -184,6 +192,42 @@ func arrange(c Case, s *h2kit.Session, bound time.Duration) string {
 	if c.State == "idle" || c.State == "idle-no-alpn" {
 		return ""
 	}
+	if c.State == "burst" {
+		const n = 300
+		stop := make(chan struct{})
+		defer close(stop)
+		go func() { // the server answers every request it sees
+			answered := map[uint32]bool{}
+			for {
+				var todo []uint32
+				sv.Wait(50*time.Millisecond, func(r *h2kit.Rec) bool {
+					todo = todo[:0]
+					for id := range r.Streams {
+						if !answered[id] {
+							todo = append(todo, id)
+						}
+					}
+					return len(todo) > 0 || r.Done
+				})
+				for _, id := range todo {
+					answered[id] = true
+					sv.WriteHeaders(h2kit.HeadersSpec{Stream: id, Pad: -1, EndStream: true, Fields: []h2kit.Field{{N: ":status", V: "204"}}})
+				}
+				select {
+				case <-stop:
+					return
+				default:
+				}
+			}
+		}()
+		for k := 0; k < n; k++ {
+			cl.WriteHeaders(h2kit.HeadersSpec{Stream: uint32(2*k + 1), Pad: -1, EndStream: true, Fields: reqFields})
+		}
+		// (whether every answer arrives is C08's business; here the session only has to be in
+		// the middle or at the end of the burst when the event comes)
+		cl.Wait(bound/2, func(r *h2kit.Rec) bool { return len(r.Streams) >= n || r.Done })
+		return ""
+	}
 	cl.WriteHeaders(h2kit.HeadersSpec{Stream: 1, Pad: -1, Fields: reqFields})
 	if !sv.Wait(bound, func(r *h2kit.Rec) bool { return len(r.Streams[1]) >= 1 || r.Done }) {
 		return "request HEADERS were not forwarded"
@@ -193,12 +237,23 @@ func arrange(c Case, s *h2kit.Session, bound time.Duration) string {
 		return "response HEADERS were not forwarded"
 	}
 	switch c.State {
-	case "mid":
+	case "mid", "early-credit":
 		cl.WriteData(1, kit.Bytes(1, 1000), -1, false)
 		sv.WriteData(1, kit.Bytes(2, 1000), -1, false)
 		if !sv.Wait(bound, func(r *h2kit.Rec) bool { return r.DataBytes[1] >= 1000 || r.Done }) ||
 			!cl.Wait(bound, func(r *h2kit.Rec) bool { return r.DataBytes[1] >= 1000 || r.Done }) {
 			return "DATA was not forwarded"
+		}
+		if c.State == "early-credit" {
+			cl.WriteHeaders(h2kit.HeadersSpec{Stream: 3, Pad: -1, Fields: reqFields})
+			cl.WriteWindowUpdate(3, 100000) // nothing has been relayed toward the client on stream 3 yet
+			if !sv.Wait(bound, func(r *h2kit.Rec) bool { return len(r.Streams[3]) >= 1 || r.Done }) {
+				return "request HEADERS of stream 3 were not forwarded"
+			}
+			sv.WriteHeaders(h2kit.HeadersSpec{Stream: 3, Pad: -1, Fields: []h2kit.Field{{N: ":status", V: "200"}}})
+			sv.WriteData(3, kit.Bytes(4, 1000), -1, false)
+			// (not waited for: a relay that chokes here has to end the session all the same)
+			cl.Wait(bound/6, func(r *h2kit.Rec) bool { return r.DataBytes[3] >= 1000 || r.Done })
 		}
 	case "blocked-c2s", "blocked-s2c", "queued-s2c":
 		S, R := cl, sv
